@@ -434,6 +434,19 @@ def _run(case, obs, lay):
     for rel in case["disk"]["before"]:
         _w(os.path.join(lay.node_root, rel), _blob(rel, 1))
 
+    if case.get("sibling_node_first"):
+        # another node of the same host is provisioned first with the same Car object: it must leave no trace in what follows
+        n0 = case["node"]
+        sibling_root = os.path.join(lay.root, "races", "race-1", n0["node_name"] + "-sibling")
+        sibling = provisioner.ElasticsearchInstaller(
+            car, None, n0["node_name"] + "-sibling", n0["cluster_name"], sibling_root, list(n0["all_node_ips"]), list(n0["all_node_names"]), n0["ip"],
+            n0["http_port"] + 1,
+        )
+        provisioner.BareProvisioner(sibling, [], distribution_version=lay.version).prepare({"elasticsearch": lay.archive})
+        obs.check(dict(car.variables) == want_vars, "car/variables-changed-by-provisioning", lambda: _diff_vars(dict(car.variables), want_vars, case))
+        shutil.rmtree(sibling_root, ignore_errors=True)
+        obs.cls("sibling-node-provisioned-first")
+
     inst = _installer(car, case, lay)
     prov = provisioner.BareProvisioner(inst, [], distribution_version=lay.version)
     node_config = prov.prepare({"elasticsearch": lay.archive})
